@@ -9,6 +9,7 @@ import Driver.OpsTmplText
 import Driver.OpsLocal
 import Driver.OpsFind
 import Driver.OpsDump
+import Driver.OpsSwitch
 /-
   bvp_lean — line-protocol driver: one operation per input line, one canonical
   result line per operation, computed by the *model*.  Each model area has its own
@@ -29,6 +30,7 @@ structure St where
   dump : DumpSt := {}
   lt : LtSt := {}
   find : FindSt := {}
+  sw : SwSt := {}
 
 def step (st : St) (line : String) : St × String :=
   let toks := (line.trimAscii.toString.splitOn " ").filter (· ≠ "")
@@ -62,6 +64,9 @@ def step (st : St) (line : String) : St × String :=
   | none =>
   match stepTmplText st.tm st.tt toks with
   | some (t, s, o) => ({ st with tm := t, tt := s }, o)
+  | none =>
+  match stepSwitch st.tm st.sw toks with
+  | some (t, s, o) => ({ st with tm := t, sw := s }, o)
   | none => (st, "bad-op")
 
 partial def loop (h : IO.FS.Stream) (out : IO.FS.Stream) (st : St) : IO Unit := do
